@@ -713,7 +713,8 @@ def step (cfg : Cfg) (s : State) : Label → Option State
     else none
   | .daemonSpawn c =>
     -- (the daemon's task is created by a worker; its handler begins a few loop iterations later — the worker may be over)
-    if s.rt ≠ .exited ∧ 0 < s.nWorkers then
+    -- since /repo 1d3a667 nothing is spawned once the daemon killer has done its final sweep (`mark_operator_exiting`)
+    if s.rt ≠ .exited ∧ 0 < s.nWorkers ∧ s.killed = false then
       some { s with dm := upd s.dm s.nDaemons .running, coop := upd s.coop s.nDaemons c,
                     stopReq := upd s.stopReq s.nDaemons false, nDaemons := s.nDaemons + 1 }
     else none
@@ -800,6 +801,10 @@ def headRestartsExited : Bool := true
 /-- `scan_resources` gathers its requests and cancels them with itself: the observers leave no orphaned requests
     behind (the model still ALLOWS orphans — other helpers may be left behind —, so this is only tied, not used) -/
 def headScanCancelsChildren : Bool := true
+
+/-- `daemon_killer`'s `finally:` first marks the memories `operator_exiting` and `spawn_daemons` spawns nothing then: the
+    guard `killed = false` of `daemonSpawn` (since /repo 1d3a667, repair of C20-F9 / C09-F13) -/
+def headNoSpawnWhileExiting : Bool := true
 
 /-- a root task awaits the core tasks and re-raises their errors (and `startup_cleanup_activities` re-raises them only
     after the cleanup activity): the edge guarded by `cfg.coreWatched`. TRUE of the current tree since /repo ed52a1a
